@@ -47,6 +47,8 @@ pub enum ConnFault {
     HandlerPanic,
     /// the client never reads the response
     StalledReader,
+    /// the handler blocks its worker thread (no await) for its whole duration
+    BlockingHandler,
 }
 
 #[derive(Serialize, Deserialize, Clone, Debug, PartialEq)]
@@ -172,7 +174,9 @@ async fn handler(req: http::Request<hyper::body::Incoming>, _ci: Option<Connecti
     let mut it = path.split('/').skip(2);
     let id: u32 = it.next().and_then(|s| s.parse().ok()).unwrap_or(u32::MAX);
     let ms: u64 = it.next().and_then(|s| s.parse().ok()).unwrap_or(0);
-    let panic = it.next() == Some("panic");
+    let flavour = it.next();
+    let panic = flavour == Some("panic");
+    let block = flavour == Some("block");
     let s = slog!("handler start req{id} ({ms} ms)");
     let t = sched::now_ns();
     run_mut(|r| r.reqs.entry(id).or_default().handler_start = Some((s, t)));
@@ -181,7 +185,11 @@ async fn handler(req: http::Request<hyper::body::Incoming>, _ci: Option<Connecti
         run_mut(|r| r.reqs.entry(id).or_default().panicked = true);
         panic!("{PANIC_MARK}");
     }
-    if ms > 0 {
+    if ms > 0 && block {
+        // a blocking / CPU-bound handler: the whole worker thread is stuck for that long
+        sched::count("fault_blocking_handler", 1);
+        sched::block_current_thread(Duration::from_millis(ms)).await;
+    } else if ms > 0 {
         tokio::time::sleep(Duration::from_millis(ms)).await;
     }
     let s = slog!("handler end req{id}");
@@ -213,10 +221,10 @@ fn req_id(conn: usize, nth: u32) -> u32 {
     conn as u32 * 10 + nth
 }
 
-fn request_bytes(id: u32, ms: u64, panic: bool, close: bool) -> Vec<u8> {
+fn request_bytes(id: u32, ms: u64, panic: bool, close: bool, block: bool) -> Vec<u8> {
     format!(
         "GET /r/{id}/{ms}{} HTTP/1.1\r\nhost: sim\r\nx-pad: {}\r\n{}\r\n",
-        if panic { "/panic" } else { "" },
+        if panic { "/panic" } else if block { "/block" } else { "" },
         "p".repeat((id % 7) as usize * 3),
         if close { "connection: close\r\n" } else { "" }
     )
@@ -278,7 +286,7 @@ async fn client(i: usize, cs: ConnScript, listeners: Vec<SharedListener>, ret: t
     let seq = slog!("client{i} connect() peer={peer}");
     let ns = sched::now_ns();
     let id0 = req_id(i, 0);
-    let req = request_bytes(id0, cs.handler_ms, cs.fault == ConnFault::HandlerPanic, false);
+    let req = request_bytes(id0, cs.handler_ms, cs.fault == ConnFault::HandlerPanic, false, cs.fault == ConnFault::BlockingHandler);
     run_mut(|r| {
         r.by_peer.insert(peer, i);
         r.conns[i] = ConnRec {
@@ -377,7 +385,7 @@ async fn client(i: usize, cs: ConnScript, listeners: Vec<SharedListener>, ret: t
     if let ConnKind::KeepAlive { gap_ns } = cs.kind {
         tokio::time::sleep(Duration::from_nanos(gap_ns)).await;
         let id1 = req_id(i, 1);
-        let req = request_bytes(id1, cs.handler_ms / 2, false, true);
+        let req = request_bytes(id1, cs.handler_ms / 2, false, true, false);
         if cl.write_all(&req).await.is_err() {
             finish(id1, ClientResult::WriteFailed);
             return;
@@ -494,7 +502,10 @@ async fn driver(script: Script) {
     drop(ret_tx);
 }
 
-const SLACK_NS: u64 = 2_000_000;
+/// Tolerance on every timing clause ("promptly", "once idle", "within the timeout"): simulated
+/// scheduling costs no simulated time, so 0 would do on the current tree; 20 ms leaves room for an
+/// implementation that, say, polls on a short interval, and is far below the smallest timeout (50 ms).
+const SLACK_NS: u64 = 20_000_000;
 
 fn viol(inv: &str, sig: String, detail: String) -> Violation {
     Violation { property: "C16".into(), invariant: inv.into(), signature: sig, detail }
@@ -580,11 +591,23 @@ fn evaluate(script: &Script, run: &Run, out: &mut RunOut) {
                     if t > ret_ns + SLACK_NS && run.second_ret.map(|(_, t2)| t > t2 + SLACK_NS).unwrap_or(true) {
                         out.violations.push(viol("await-handle-resolves", "waiter late".into(), format!("awaiting the handle resolved {} ns after shutdown returned", t - ret_ns)));
                     }
+                    // awaiting the handle means waiting for the server to shut down: it must not
+                    // resolve while the first call's drain is still going on
+                    if t + SLACK_NS < ret_ns && !ambiguous && !second_called_first && matches!(sd.mode, Mode::Graceful { .. }) {
+                        out.violations.push(viol("await-handle-resolves", "waiter early".into(), format!("awaiting the handle resolved {} ns before the graceful shutdown had completed", ret_ns - t)));
+                    }
                     if t + SLACK_NS < call_ns && run.second_call.map(|(_, t2)| t + SLACK_NS < t2).unwrap_or(true) {
                         out.violations.push(viol("await-handle-resolves", "waiter early".into(), "awaiting the handle resolved before any shutdown call".into()));
                     }
                     out.count("probe_waiter_resolved", 1);
                 }
+            }
+        }
+        // Observation only (the property speaks of one call): a Forced call issued while a Graceful
+        // drain is in progress is not read by the acceptor until the drain ends.
+        if let (Some((_, Mode::Forced)), Some((_, c2)), Some((_, r2)), Mode::Graceful { .. }) = (&sd.second, run.second_call, run.second_ret, &sd.mode) {
+            if r2 > c2 + SLACK_NS && c2 >= call_ns {
+                out.count("observation_forced_second_call_waited_for_graceful_drain", 1);
             }
         }
         if sd.second.is_some() && run.second_call.is_some() {
@@ -628,6 +651,12 @@ fn evaluate(script: &Script, run: &Run, out: &mut RunOut) {
             }
         }
     }
+    // Blocking handlers keep a whole worker thread from doing anything, including serving other
+    // connections and reading the shutdown command: a request can only be promised an answer if
+    // all the blocking in the run plus its own handler fits the timeout (which worker a connection
+    // lands on is not modelled, so the bound is over the whole run).
+    let total_blocking_ms: u64 = script.conns.iter().filter(|c| c.fault == ConnFault::BlockingHandler).map(|c| c.handler_ms).sum();
+    let blocking_fits = |own_ms: u64| ((total_blocking_ms + own_ms) * 1_000_000).saturating_add(SLACK_NS) < timeout_ns;
     // 2. drain: class-A requests get their answer
     let mut stalled_mid_request = false;
     for (ci, c) in run.conns.iter().enumerate() {
@@ -658,10 +687,11 @@ fn evaluate(script: &Script, run: &Run, out: &mut RunOut) {
         let class_a = dispatched_before
             && written_before
             && !c.dropped_busy
-            && cs.fault == ConnFault::None
+            && matches!(cs.fault, ConnFault::None | ConnFault::BlockingHandler)
             && matches!(cs.kind, ConnKind::Full | ConnKind::Delayed { .. } | ConnKind::KeepAlive { .. })
             && (cs.handler_ms * 1_000_000).saturating_add(SLACK_NS) < timeout_ns
-            && (never_polled_before_call || head_read_before_call);
+            && (never_polled_before_call || head_read_before_call)
+            && (total_blocking_ms == 0 || blocking_fits(if cs.fault == ConnFault::BlockingHandler { 0 } else { cs.handler_ms }));
         if !class_a {
             continue;
         }
@@ -886,7 +916,7 @@ impl Sim for SrvSim {
             real: vec!["pavex Server, ServerHandle, Acceptor, Worker (runtime/pavex/src/server/*)".into(), "hyper 1.x HTTP/1 connection state machine".into(), "hyper-util auto::Builder + GracefulShutdown".into(), "tokio mpsc/oneshot/watch channels, LocalSet, JoinSet, timers (paused clock)".into()],
             stub: vec!["OS threads → simulated threads (nested LocalSets polled by the seeded scheduler)".into(), "TCP listener and sockets → in-memory pipes (cfg(pavex_verif) seam)".into(), "clients → raw HTTP/1.1 simulator tasks".into(), "wall clock and OS entropy → libc-level seams".into()],
             assumptions: vec!["threads interleave at awaits and at the hooked synchronous preemption points, not between arbitrary instructions".into(), "class A ('received before the call') = dispatched to a worker and fully written before the call, and either never polled by the worker yet (queued) or its head already read; bytes that reach an already-served idle connection but are still unread when the worker processes the shutdown are hyper's documented idle-connection race and are only counted (probe_unread_bytes_on_served_connection_at_call)".into(), "HTTP/1.1 only".into()],
-            fault_counters: vec!["fault_client_disconnect_after_request".into(), "fault_client_disconnect_mid_response".into(), "fault_stalled_reader".into(), "fault_handler_panic".into(), "preemptions_taken".into()],
+            fault_counters: vec!["fault_blocking_handler".into(), "fault_client_disconnect_after_request".into(), "fault_client_disconnect_mid_response".into(), "fault_stalled_reader".into(), "fault_handler_panic".into(), "preemptions_taken".into()],
             expected_probes: vec!["probe_all_workers_busy_drop".into(), "probe_shutdown_overtook_queued_connection".into(), "probe_shutdown_with_handler_in_flight".into(), "probe_timeout_elapsed".into(), "probe_connect_after_return".into(), "probe_forced_with_inflight".into(), "probe_waiter_resolved".into(), "probe_second_call_resolved".into(), "class_a_requests".into()],
         }
     }
@@ -943,8 +973,8 @@ impl Sim for SrvSim {
             let handler_ms = match rng.below(8) {
                 0 | 1 => 0,
                 2 | 3 => rng.range(1, 20).min(timeout_ms / 3),
-                4 => timeout_ms.saturating_sub(3),
-                5 => timeout_ms + 3,
+                4 => timeout_ms.saturating_sub(*rng.pick(&[3, 30])),
+                5 => timeout_ms + *rng.pick(&[3, 30]),
                 6 => timeout_ms * 10,
                 _ => rng.range(0, timeout_ms),
             };
@@ -953,6 +983,7 @@ impl Sim for SrvSim {
                 1 => ConnFault::DisconnectMidResponse { after: rng.usize(1, 60) },
                 2 => ConnFault::HandlerPanic,
                 3 => ConnFault::StalledReader,
+                4 => ConnFault::BlockingHandler,
                 _ => ConnFault::None,
             };
             let cap_in = *rng.pick(&[65_536, 65_536, 4096, 512, 64, 7, 1]);
